@@ -41,7 +41,13 @@ func genStreams(r *simrt.RNG, tier string, variant int, prop string) Plan {
 	total := 0
 	for i := 0; i < ns; i++ {
 		n := Pick(r, streamLens)
-		if total+n > 420 {
+		if tier == "thorough" && i == 0 && r.Bool(0.04) {
+			// rare very long stream to a possibly stalled consumer: beyond any
+			// plausible internal bound (thousands of values)
+			n = Pick(r, []int{1500, 9000})
+			p.Params["max_steps"] = 600000
+		}
+		if total+n > 420 && n < 1000 {
 			n = Pick(r, []int{0, 1, 5, 33})
 		}
 		total += n
